@@ -42,6 +42,7 @@ def c11(ctx, rep):
     _r(optable.rule_opcode_classes, ctx, rep)
     _r(optable.rule_stack_effect, ctx, rep)
     _r(stack_rules.rule_stack_discipline, ctx, rep)
+    _r(optable.rule_int_push_table, ctx, rep)
     rep.assume("spec/avm_ops.json is the AVM stack effect of every v1-v8 opcode (hand-reviewed; version/mode cross-checked with PyTeal)")
 
 
@@ -69,6 +70,7 @@ def c19(ctx, rep):
     _r(version_rules.rule_verify_version, ctx, rep)
     _r(version_rules.rule_detect_mode_table, ctx, rep)
     _r(version_rules.rule_mode_and_type, ctx, rep)
+    _r(version_rules.rule_config_version, ctx, rep)
 
 
 from .rules import cmptables  # noqa: E402
@@ -132,6 +134,7 @@ def generic_core(ctx, rep):
     _r(generic_tables.rule_worklist, ctx, rep)
     _r(generic_tables.rule_fixpoint_programs, ctx, rep)
     _r(function_rules.rule_function_construction, ctx, rep)
+    _r(optable.rule_int_push_table, ctx, rep)
     _r(stack_rules.rule_stack_discipline, ctx, rep, full=False)
     _r(spelling.rule_constant_block, ctx, rep)
     _r(effects.rule_pure_lattice, ctx, rep)
@@ -374,6 +377,7 @@ def c15(ctx, rep):
     _r(spelling.rule_named_constants, ctx, rep)
     _r(spelling.rule_constant_block, ctx, rep)
     _r(spelling.rule_one_door, ctx, rep)
+    _r(optable.rule_int_push_table, ctx, rep)
     _r(spelling.rule_rewrite_invariance, ctx, rep)
     _r(spelling.rule_padding_invariance, ctx, rep)
     _r(spelling.rule_move_subroutines, ctx, rep)
